@@ -802,6 +802,41 @@ def build(active_known=frozenset()):
               lambda a: z3.And(has_class(a.eng, a.result, PM),
                                same_map(mview(a.post, a.result), model_assoc(z3.K(V.Val, V.VNone), z3.K(V.Val, z3.BoolVal(False)), z3.IntVal(0), a.k, a.v))))
 
+    # update: (update m k f) is (assoc m k (f (get m k))) - also when k is absent and f returns nil
+    class UpdateFn:
+        """stand-in for the function passed to update: an opaque callable"""
+
+    def the_call(a):
+        calls = [c_ for c_ in a.post.st.calls if z3.eq(z3.simplify(c_[0]), z3.simplify(a.f))]
+        return calls[0] if len(calls) == 1 else None
+
+    c = live("update", "PersistentMap", m=OBJ(PM), k=ANY, f=OBJ(UpdateFn))
+    c.allow_callback_exceptions = True
+
+    def upd_map_post(a):
+        call = the_call(a)
+        if call is None or len(call[1]) != 1 or isinstance(call[3], Exc):
+            return z3.BoolVal(False)
+        m, d, n_ = mview(a.pre, a.m)
+        kn = lib.key_norm(a.k)
+        return z3.And(call[1][0] == z3.If(z3.Select(d, kn), z3.Select(m, kn), V.VNone), has_class(a.eng, a.result, PM),
+                      same_map(mview(a.post, a.result), model_assoc(m, d, n_, a.k, call[3])))
+
+    c.ensures("f is called once with the current value of the key (nil when absent) and the key is bound to whatever f returns - nil included; every other entry is left alone", upd_map_post)
+
+    c = live("update", "PersistentVector", m=OBJ(PV), k=INT, f=OBJ(UpdateFn))
+    c.requires("the index is within the vector or just behind it", lambda a: z3.And(V.Val.i(a.k) >= 0, V.Val.i(a.k) <= z3.Length(sview(a.pre, a.m))))
+    c.allow_callback_exceptions = True
+
+    def upd_vec_post(a):
+        call = the_call(a)
+        if call is None or len(call[1]) != 1 or isinstance(call[3], Exc):
+            return z3.BoolVal(False)
+        S, i = sview(a.pre, a.m), V.Val.i(a.k)
+        return z3.And(call[1][0] == z3.If(i < z3.Length(S), S[i], V.VNone), has_class(a.eng, a.result, PV), sview(a.post, a.result) == seq_update(S, i, call[3]))
+
+    c.ensures("f is called once with the current element (nil at the append position) and the position holds whatever f returns - nil included", upd_vec_post)
+
     c = live("get", "PersistentVector", m=OBJ(PV), k=INT, default=ANY)
     c.requires("the index is not negative", lambda a: V.Val.i(a.k) >= 0)
     c.raises()
@@ -903,6 +938,18 @@ for ks in keyseqs(2):
         t = m.to_transient()
         chk("(get tm %s)" % k, t.val_at(k, "dflt"), base.get(k, "dflt"))
         chk("(contains? tm %s)" % k, t.contains_transient(k), k in base)
+for k in (A, B, Z):
+    for fname, f in (("identity", lambda v: v), ("(constantly nil)", lambda v: None), ("(fnil inc 0)", lambda v: (v or 0) + 1)):
+        m = lmap.map(base)
+        want = dict(base); want[k] = f(base.get(k))
+        chk("(update m %s %s)" % (k, fname), dict(runtime.update(m, k, f)), want)
+        chk("source map after update", dict(m), base)
+for items in ([], [1, 2]):
+    for i in range(len(items) + 1):
+        for fname, f in (("identity", lambda v: v), ("(constantly 9)", lambda v: 9)):
+            want = list(items) + [None] if i == len(items) else list(items)
+            want[i] = f(want[i])
+            chk("(update %r %d %s)" % (items, i, fname), list(runtime.update(vec.vector(items), i, f)), want)
 m = lmap.map(base, meta=META)
 chk("(meta (with-meta m x))", m.with_meta(META2).meta, META2); chk("(meta m) after with-meta", m.meta, META); chk("(= m (with-meta m x))", m.with_meta(META2) == m, True)
 chk("(hash (with-meta m x))", hash(m.with_meta(META2)) == hash(m), True); chk("(empty m)", dict(m.empty()), {}); chk("(count m)", len(m), 2)
